@@ -413,6 +413,59 @@ def grammar_of(log):
     return None
 
 
+def window_contents_of(case, r):
+    """window_with_time_or_count / window_with_time (span = shift): the windows the subscriber saw must be the partition
+    of the source prescribed by the time-or-count rule, given the order in which the handlers took the operator's
+    lock and WHICH timer the timer thread had taken: the k-th timer belongs to the k-th window; a timer fired for a
+    window that has already been closed (by count, concurrently) is stale and must do nothing — in particular it
+    must not close the freshly opened window (a spurious empty window).  Returns None or a description."""
+    op = case["op"]
+    params = case.get("params") or {}
+    if op == "window_time" and params.get("shift"):
+        return None
+    count = params.get("count", 2) if op == "window_toc" else None
+    scripts = case["scripts"]
+    order = linearisation(r["log"], len(scripts))
+    fired = r.get("fired", [])
+    wins = [{"els": [], "end": None}]
+    cur, n, outer_end = 0, 0, None
+    for k, j in order:
+        if outer_end is not None:
+            break
+        item = scripts[k][j]
+        if k == 0:
+            if item[0] == "N":
+                wins[cur]["els"].append(item[1])
+                n += 1
+                if count is not None and n == count:
+                    wins[cur]["end"] = "C"
+                    wins.append({"els": [], "end": None})
+                    cur, n = cur + 1, 0
+            else:
+                wins[cur]["end"] = item[0]
+                outer_end = item[0]
+        else:
+            seq = fired[j] if j < len(fired) else None
+            if seq is not None and seq == cur:
+                wins[cur]["end"] = "C"
+                wins.append({"els": [], "end": None})
+                cur, n = cur + 1, 0
+    want = [[w["els"], w["end"]] for w in wins]
+    d = downstream(r["log"])
+    got = []
+    for ev in d.get("out", []):
+        if ev[0] == "N":
+            w = d.get(ev[1], [])
+            els = [x[1] for x in w if x[0] == "N"]
+            end = next((x[0] for x in w if x[0] in ("E", "C")), None)
+            got.append([els, end])
+    got_end = next((ev[0] for ev in d.get("out", []) if ev[0] in ("E", "C")), None)
+    if got != want or got_end != outer_end:
+        return {"windows": got, "expected": want, "outer_end": got_end, "expected_outer_end": outer_end,
+                "handler_order": order, "timers_taken": fired}
+    return None
+
+
 def linearisation(log, nthreads):
     """Order of the handlers (thread, item index) for combinators that subscribe their sources once, at
     subscription time.  A handler is placed where its thread first acquires a lock from the operator's code
